@@ -203,8 +203,8 @@ def run(module, cfg_path=None, cfg=None, workers=16, timeout=900, coverage=False
     else:
         shutil.copy(cfg_path if os.path.isabs(cfg_path) else os.path.join(SPEC, cfg_path), cfgfile)
     args = ['tlc2.TLC', '-workers', str(workers), '-metadir', os.path.join(wd, 'md_%d' % time.time_ns()),
-            '-noGenerateSpecTE', '-config', cfgfile]
-    if coverage:
+            '-noGenerateSpecTE', '-fp', '1', '-config', cfgfile]      # fixed fingerprint function: state ids in the dumped
+    if coverage:                                                       # graph are the same from run to run
         args += ['-coverage', '1']
     dotfile = None
     if dump:
